@@ -80,7 +80,7 @@ SrvReplay(U, sstore, wants, mode, ev, k, st, pend) ==
          ELSE SrvReplay(U, sstore, wants, mode, ev, k + 1, st, SrvDone(mode, st))
 
 \* ------------------------------------------------------------ dialogue, client side (dulwich)
-\* s = [heads, wp, inVain, gotAck, done]
+\* s = [heads, wp, inVain, gotAck, done, ready]; "ACK <id> ready" (C git server) ends the have list
 RECURSIVE CliReplay(_, _, _, _, _)
 CliReplay(U, miv, ev, k, s) ==
     IF k > Len(ev) THEN (IF s.done THEN 0 ELSE k)
@@ -92,12 +92,13 @@ CliReplay(U, miv, ev, k, s) ==
                         IN  CliReplay(U, miv, ev, k + 1, [s EXCEPT !.heads = n.heads, !.wp = n.wp, !.inVain = @ + 1])
                    ELSE k
          ELSE IF e[1] = "w"       \* done
-              THEN IF s.heads = {} \/ (s.inVain >= miv /\ s.gotAck)
+              THEN IF s.heads = {} \/ (s.inVain >= miv /\ s.gotAck) \/ s.ready
                    THEN CliReplay(U, miv, ev, k + 1, [s EXCEPT !.done = TRUE])
                    ELSE k
          ELSE IF e[2] = "ACK" /\ e[4] # ""
               THEN LET a == WalkerAck(s.heads, s.wp, {Num(e[3])})
-                   IN  CliReplay(U, miv, ev, k + 1, [s EXCEPT !.heads = a.heads, !.wp = a.wp, !.inVain = 0, !.gotAck = TRUE])
+                   IN  CliReplay(U, miv, ev, k + 1, [s EXCEPT !.heads = a.heads, !.wp = a.wp, !.inVain = 0, !.gotAck = TRUE,
+                                                              !.ready = @ \/ e[4] = "ready"])
          ELSE CliReplay(U, miv, ev, k + 1, s)
 
 \* ------------------------------------------------------------ one transfer
@@ -150,7 +151,7 @@ Judge(t) ==
         cr      == IF t.cli # <<>> /\ ok
                    THEN CliReplay(U, t.miv, t.cli, 1,
                                   [heads |-> SeqSet(t.rheads), wp |-> WalkerInit(Len(U.par)), inVain |-> 0,
-                                   gotAck |-> FALSE, done |-> FALSE])
+                                   gotAck |-> FALSE, done |-> FALSE, ready |-> FALSE])
                    ELSE 0
         shape ==
             IF t.forged = 1 /\ ok THEN "ForgedWantAccepted"
